@@ -4,7 +4,8 @@
    root of a negative number with a non-integer exponent), max/min/rem/rounding/transcendental functions are the
    abstract [fsem] shared with Eval (max and min of one operand are that operand), a derivative has a value only
    for  diff(bvar(ci t), ci y)  (the atom dsem y t), n-ary operators need at least one operand here, <otherwise>
-   must be the last child of <piecewise>.  Numbers: the decimal digit reader is the one of the model
+   must be the last child of <piecewise>, an <apply> with one child that is not an operator is that child (the
+   implementation's test-suite relies on it).  Numbers: the decimal digit reader is the one of the model
    (Transpile.signed_number) restricted to the MathML alphabet [0-9.+-]. *)
 From Coq Require Import List ZArith QArith Bool Reals Qreals String.
 From Verif Require Import Sexp UnitAlg UStore Expr Eval Transpile.
@@ -61,6 +62,11 @@ Definition mathml_real (s : list Z) : option (Z * Z) :=
   if forallb real_char s then
     match signed_number s with Some (v, k, []) => Some (v, k) | _ => None end
   else None.
+
+(* a plain <cn>: a decimal with an optional decimal exponent "1.5e-3" (choice in favour of CellML practice) *)
+Definition number_char (c : Z) : bool := real_char c || (c =? 101) || (c =? 69).
+Definition mathml_number (s : list Z) : option Q :=
+  if forallb number_char s then py_real s else None.
 
 Definition mathml_int (s : list Z) : option Z :=
   if forallb int_char (strip s) then py_int s else None.
@@ -154,8 +160,8 @@ Section Spec.
   Definition sem_cn (ty : Z) (text : list Z) (ch : list mtree) : option value :=
     if (ty =? 0)%Z then
       match text, ch with
-      | _ :: _, [] => match mathml_real (strip text) with
-                      | Some (v, k) => Some (VR (Q2R (q10 v (- k))))
+      | _ :: _, [] => match mathml_number (strip text) with
+                      | Some q => Some (VR (Q2R q))
                       | None => None
                       end
       | _, _ => None
@@ -254,10 +260,11 @@ Section Spec.
     | Some RPiecewise => mpw_of rec ch
     | Some RApply =>
         match ch with
-        | MElem otag _ _ _ _ :: args =>
-            match role otag with
-            | Some (ROp k) => sem_apply rec k args
-            | _ => None
+        | x :: args =>
+            match role (mtag x), args with
+            | Some (ROp k), _ => sem_apply rec k args
+            | _, [] => rec x           (* an <apply> around a single value is that value *)
+            | _, _ => None
             end
         | [] => None
         end
